@@ -2105,6 +2105,20 @@ func TestVerifC07Path(t *testing.T) {
 					c.exact = true // keep the used = sum-of-live clause armed: this stream is about exactly that
 				}
 				g := pp.g
+				if stale && r.Chance(1, 3) && len(g[0]) > 0 {
+					// the annotation changes in the very update that reports the pod terminated: updatePod -> deletePod(NEW object)
+					ng := c07Groups{0: append([]c07Alloc(nil), g[0]...)}
+					ng[0][0].vec = c07Vec{20, -1, 20}
+					if ng[0][0].vec != g[0][0].vec {
+						c.staleFP = "C07:caller-supplied-removal"
+						h.Tag("stale:terminated-changed")
+						c.doUpdate("release", pp.id, g, ng, true, true, true)
+						c.exact = true
+						pods = append(pods[:i:i], pods[i+1:]...)
+						h.Tag("op:release")
+						continue
+					}
+				}
 				h.Op("del %d 1 %s", pp.id, g.tok())
 				before := c.cur
 				if h.Guard(func() { c.cache.onPodDelete(c07Pod(pp.id, g.api(), c07Node)) }) {
